@@ -310,6 +310,9 @@ def occurrence_bridge(c, p, patt):
     return _bridge_lemmas(c, p, patt, None)
 
 
+occurrence_bridge.runtime_cap = 80  # every item quantifies over all index tuples: expensive at run time
+
+
 def _post(c, p, patt, result, cols):
     n = c.len(p)
     return c.and_(
@@ -343,7 +346,30 @@ class OccurrencesIn:
 # --------------------------------------------------------------------------- with colourings
 @lemma("occurrence_bridge_coloured", {"p": "Perm", "patt": "Perm", "sc": "Seq", "pc": "Seq"}, props=P)
 def occurrence_bridge_coloured(c, p, patt, sc, pc):
+    if c.mode == "run" and (len(sc) != len(p) or len(pc) != len(patt)):
+        return []  # not colourings of the two permutations (symbolically, sequences are total: no guard needed)
     return _bridge_lemmas(c, p, patt, (sc, pc))
+
+
+def _coloured_domain(quick):
+    """(pattern, permutation, colouring of the pattern, colouring of the permutation): all 2-colourings"""
+    import itertools
+
+    from vlib import domains as D
+
+    perms = D.perms_upto(3 if quick else 4)
+    targets = D.perms_upto(4)
+    for p in perms:
+        for q in targets:
+            if len(p) > len(q):
+                continue
+            for sc in itertools.product((0, 1), repeat=len(p)):
+                for pc in itertools.product((0, 1), repeat=len(q)):
+                    yield (p, q, sc, pc)
+
+
+occurrence_bridge_coloured.runtime_domain = _coloured_domain
+occurrence_bridge_coloured.runtime_cap = 60
 
 
 @contract("Perm.occurrences_in@4", params={"self": "Perm", "patt": "Perm", "args#0": "Seq", "args#1": "Seq"}, returns="TupleList", props=P)
@@ -355,6 +381,8 @@ class OccurrencesInColoured:
     def ensures(c, self, patt, sc, pc, result):
         return _post(c, self, patt, result, (sc, pc))
 
+    runtime_domain = staticmethod(_coloured_domain)
+    runtime_cap = 1500
     uses_lemmas = [("occurrence_bridge_coloured", lambda self, patt, sc, pc: (self, patt, sc, pc), ("fits", "sound_occ", "complete"))]
     inner = {"occurrences": _Occurrences}
     invariants = {0: _loop_invariant}
